@@ -689,10 +689,11 @@ def random_programs(seed, count):
         k = len(progs)
         pid = f"rnd{k}"
         base = rnd.choice([8, 16, 32, 64, 128, rnd.randint(2, 127), rnd.randint(2, 127)])
-        enums, fields, pos = [], [], rnd.choice([0, 0, 1])
+        enums, fields, inners, pos = [], [], [], rnd.choice([0, 0, 1])
         while pos < base and len(fields) < 6:
             room = base - pos
-            kind = rnd.choice(["bool", "u", "u", "u", "i", "arr", "nc", "enum", "arrb", "ncarr", "iarr", "earr"])
+            kind = rnd.choice(["bool", "u", "u", "u", "i", "arr", "nc", "enum", "arrb", "ncarr", "iarr", "earr",
+                               "ncw", "ncw", "nested", "ncenum"])
             acc_ = rnd.choice(["rw", "rw", "rw", "r", "w"])
             nm = f"f{len(fields)}"
             sty = rnd.choice(["std", "std", "std", "access_first", "stride_first", "stride_mid", "stride_first_colon", "zpad", "range1"])
@@ -726,6 +727,64 @@ def random_programs(seed, count):
                 if rnd.random() < 0.5:
                     rs.reverse()
                 fields.append(F(nm, T_u(a + b), rs, access=acc_)); pos += a + g + b
+            elif kind == "ncw":
+                # a WIDE list field: 2-4 ranges of unequal lengths, shuffled, with gaps; native totals (8/16/32/64) and signed
+                # types are drawn on purpose (the narrowing casts of native-typed fields are where list fields go wrong)
+                total = rnd.choice([8, 16, 32, 64, rnd.randint(2, 70), rnd.randint(2, 20)])
+                parts = rnd.randint(2, 4)
+                if total < parts:
+                    continue
+                cuts = sorted(rnd.sample(range(1, total), parts - 1))
+                lens = [b - a for a, b in zip([0] + cuts, cuts + [total])]
+                gaps = [rnd.choice([0, 1, 1, 2, 5]) for _ in lens]
+                gaps[0] = rnd.choice([0, 0, 1])
+                if total + sum(gaps) > room:
+                    continue
+                rs, q = [], pos
+                for ln, g in zip(lens, gaps):
+                    q += g
+                    rs.append((q, ln)); q += ln
+                # adjacent entries are legal; merge nothing, but shuffle the declaration order
+                rnd.shuffle(rs)
+                signed = total in (8, 16, 32, 64) and rnd.random() < 0.35
+                fields.append(F(nm, T_i(total) if signed else T_u(total), rs, access=acc_)); pos = q
+            elif kind == "nested":
+                n = rnd.choice([rnd.randint(2, 9), rnd.randint(2, 64), rnd.randint(65, 128), 8, 16, 32, 64])
+                if n > room:
+                    n = room
+                if n < 2:
+                    continue
+                inner = Struct(f"Irnd{k}x{len(fields)}", n, [F("lo", T_u(n // 2), (0, n // 2)), F("hi", T_u(n - n // 2), (n // 2, n - n // 2))])
+                split = n >= 4 and room >= n + 2 and rnd.random() < 0.4
+                if split:
+                    a = rnd.randint(1, n - 1)
+                    rs = [(pos, a), (pos + a + 2, n - a)]
+                    if rnd.random() < 0.5:
+                        rs.reverse()
+                    fields.append(F(nm, FT("nested", n, inner), rs, access=acc_)); pos += n + 2
+                else:
+                    fields.append(F(nm, FT("nested", n, inner), (pos, n), access=acc_)); pos += n
+                inners.append(inner)
+            elif kind == "ncenum":
+                n = rnd.randint(2, 4)
+                if n + 2 > room:
+                    continue
+                total = 1 << n
+                vals = sorted(rnd.sample(range(total), rnd.randint(1, total - 1)))
+                if (total - 1) not in vals:
+                    vals[-1] = total - 1          # the all-ones discriminant exercises every range of the list
+                rnd.shuffle(vals)
+                e = Enum(f"Ernd{k}x{len(enums)}", n, [(f"V{i}", v) for i, v in enumerate(vals)], exhaustive=None)
+                enums.append(e)
+                a = rnd.randint(1, n - 1)
+                rs = [(pos, a), (pos + a + rnd.choice([1, 2]), n - a)]
+                end = rs[1][0] + rs[1][1]
+                if end > base:
+                    enums.pop()
+                    continue
+                if rnd.random() < 0.5:
+                    rs.reverse()
+                fields.append(F(nm, T_enum(e), rs, access=acc_)); pos = end
             elif kind == "ncarr":
                 a, g, b = rnd.randint(1, 3), rnd.randint(0, 2), rnd.randint(1, 3)
                 span = a + g + b
@@ -785,7 +844,7 @@ def random_programs(seed, count):
             st = S(pid, base, fields, default=default)
         except AssertionError:
             continue
-        progs.append(Program(pid, enums=enums, structs=[st],
+        progs.append(Program(pid, enums=enums, structs=inners + [st],
                              props=("C01", "C02", "C03", "C04", "C05", "C06", "C08", "C11", "C12", "C13", "C16", "C17", "C14")))
     return progs
 
